@@ -125,6 +125,62 @@ def _free_names_of_def(d):
     return exprs, frees
 
 
+class _Subst(ast.NodeTransformer):
+    def __init__(self, mapping):
+        self.mapping = mapping
+
+    def visit_Name(self, node):
+        if isinstance(node.ctx, ast.Load) and node.id in self.mapping:
+            return self.mapping[node.id]
+        return node
+
+
+def _inline_helper(call, info):
+    """`self.m(args)` / `Class.m(args)` where m is a one-expression helper of the enclosing class: the returned expression with
+    the arguments substituted (so that a key built through a helper is analysed like the expression it stands for)."""
+    f = call.func
+    if not (isinstance(f, ast.Attribute) and isinstance(f.value, ast.Name)):
+        return None
+    cls = getattr(info.fn, "_parent", None)
+    while cls is not None and not isinstance(cls, ast.ClassDef):
+        cls = getattr(cls, "_parent", None)
+    if cls is None or f.value.id not in ("self", "cls", cls.name):
+        return None
+    m = next((x for x in cls.body if isinstance(x, ast.FunctionDef) and x.name == f.attr), None)
+    if m is None:
+        return None
+    body = [st for st in m.body if not (isinstance(st, ast.Expr) and isinstance(st.value, ast.Constant) and isinstance(st.value.value, str))]
+    if len(body) != 1 or not isinstance(body[0], ast.Return) or body[0].value is None:
+        return None
+    params = [a.arg for a in m.args.args]
+    decos = [ast.unparse(d) for d in m.decorator_list]
+    if "staticmethod" not in decos and params and params[0] in ("self", "cls"):
+        params = params[1:]
+    if len(call.args) != len(params) or call.keywords:
+        return None
+    import copy
+    return _Subst(dict(zip(params, call.args))).visit(copy.deepcopy(body[0].value))
+
+
+_CONST_PROPS = {}
+
+
+def class_constant_attr(attr):
+    """True when every concrete definition of a property `attr` in the package returns a literal (e.g. LibrationPoint.idx):
+    such a projection says which class an object belongs to, nothing about the instance."""
+    if attr not in _CONST_PROPS:
+        defs = []
+        for m in ri.all_modules():
+            if attr not in m.source:
+                continue
+            for q, fn in ri.functions_in(m):
+                if fn.name == attr and "property" in ri.decorators(fn) and not any("abstractmethod" in d for d in ri.decorators(fn)):
+                    rets = [r.value for r in ast.walk(fn) if isinstance(r, ast.Return)]
+                    defs.append(bool(rets) and all(isinstance(r, ast.Constant) for r in rets))
+        _CONST_PROPS[attr] = bool(defs) and all(defs)
+    return _CONST_PROPS[attr]
+
+
 def _roots(expr, info: _FnInfo, mode="whole", out=None, seen=None, depth=0):
     """Backward slice of `expr` to the function's inputs.  out: path -> mode ('whole' dominates 'lossy')."""
     out = {} if out is None else out
@@ -145,6 +201,10 @@ def _roots(expr, info: _FnInfo, mode="whole", out=None, seen=None, depth=0):
                 if p is not None:
                     visit(ast.Attribute(value=e.args[0], attr=e.args[1].value, ctx=ast.Load()), m)
                     return
+            inl = _inline_helper(e, info)
+            if inl is not None:
+                visit(inl, m)
+                return
             m2 = "lossy" if fname in LOSSY_CALLS else m
             for a in e.args:
                 visit(a.value if isinstance(a, ast.Starred) else a, m2)
@@ -170,7 +230,7 @@ def _roots(expr, info: _FnInfo, mode="whole", out=None, seen=None, depth=0):
         if p is not None:
             head = p.split(".")[0]
             if head in info.params:
-                add(p, m)
+                add(p, "lossy" if (m == "whole" and "." in p and class_constant_attr(p.split(".")[-1])) else m)
                 return
             if head in info.nested and (head, m) not in seen:
                 seen.add((head, m))
@@ -245,6 +305,18 @@ def _bases(mod, cls):
         return []
 
 
+def _alias_of_container(fn, name):
+    """`name = <container>.setdefault(k, {})` / `<container>[k]` / `<container>.get(k, ...)`: (container expr, outer key) or None."""
+    for n in _FnInfo._own_nodes(fn):
+        if isinstance(n, ast.Assign) and len(n.targets) == 1 and isinstance(n.targets[0], ast.Name) and n.targets[0].id == name:
+            v = n.value
+            if isinstance(v, ast.Call) and isinstance(v.func, ast.Attribute) and v.func.attr in ("setdefault", "get") and v.args:
+                return v.func.value, v.args[0]
+            if isinstance(v, ast.Subscript):
+                return v.value, v.slice
+    return None
+
+
 def find_sites(mod):
     sites = []
     for qual, fn in ri.functions_in(mod):
@@ -267,6 +339,13 @@ def find_sites(mod):
             if not any(ast.unparse(c) == ctext and ast.unparse(k) == ktext for c, k in lookups):
                 continue
             kind, text = _container_kind(mod, fn, cont)
+            if kind is None and isinstance(cont, ast.Name):
+                al = _alias_of_container(fn, cont.id)
+                if al is not None:
+                    kind, text = _container_kind(mod, fn, al[0])
+                    if kind is not None:
+                        key = ast.Tuple(elts=[al[1], key], ctx=ast.Load())     # two-level cache: effective key = (outer, inner)
+                        text = f"{text}[...]"
             if kind is None:
                 continue
             # local dict literals / arrays are not caches: the container must outlive the call
